@@ -23,7 +23,7 @@ from harness import core
 
 LIGHTS = core.Raw("{<<0,0,1,1>>, <<3,4,0,5>>, <<2,3,6,7>>, <<-2,-1,2,3>>, <<-6,2,-3,7>>, <<4,-3,0,5>>, <<0,-4,3,5>>}")
 KS = core.Raw("{1, 7, -5}")
-INV = ["TypeOK", "NaNRing", "NaNExactly", "OffsetInv", "FlatLaw", "FlatIffZeroSlope", "Ranges", "RotLaw"]
+INV = ["TypeOK", "NaNRing", "NaNExactly", "OffsetInv", "ScaleLaw", "FlatLaw", "FlatIffZeroSlope", "Ranges", "RotLaw"]
 INV_LOC = ["TypeOK", "NaNRing", "NaNExactly"]      # the larger locality configurations: per-window lemmas are done on 3x3
 PROPS = ["Locality", "ReadsOnly"]
 
@@ -219,8 +219,9 @@ def handle(ctx, cases, tag, parallel=8, prefix="stencil"):
         j = c["job"]
         if distinct_finite(j["vals"]) >= 2:
             ctx.nontrivial((c["kind"], json.dumps(j, sort_keys=True)))
-        if cl != "ok" and capped(ctx, "%s:%s" % (prefix, cl)):
-            ctx.violation("%s:%s" % (prefix, cl), cl, {"job": j, "observed": c.get("raw"), "case": strip(c) if c["kind"] != "F" else None},
+        pre = "dask" if j.get("chunks") else prefix            # Dask-backed cases carry the key prefix dask:
+        if cl != "ok" and capped(ctx, "%s:%s" % (pre, cl)):
+            ctx.violation("%s:%s" % (pre, cl), cl, {"job": j, "observed": c.get("raw"), "case": strip(c) if c["kind"] != "F" else None},
                           "%s %dx%d dtype=%s meta=%s" % (tag, j["H"], j["W"], j.get("dtype"), (j.get("meta") or {}).get("rk")))
         ex = ctx.judge_extra.get(i)
         if ex and ex.startswith("drift"):
@@ -366,6 +367,29 @@ def run(ctx):
         rows = sprinkle_nan(rng, rand_raster(rng, H, W, "smallint"), rng.choice([0, 0.05, 0.15]))
         jobs.append(f_job(rows, t, az=rng.choice([225, 10, 100, 180, 271, 359]), alt=rng.choice([25, 5, 60, 89])))
     groups.append(("tiled_rasters", jobs, ctx.pick(4, 8)))
+
+    # ------------------------------------------------------------------ R: SCALE family - the same small-integer rasters
+    # times 2^-24, 2^-30, 2^20 (exact; float32 and float64 inputs, squares stay far above the float32 underflow),
+    # cell size unchanged: tiny / huge absolute gradients.  Judged against the exact formulas on the INTEGER raster
+    # (aspect unchanged; tan(slope), curvature, hillshade gradient scale by the power of two - ScaleLaw in the model).
+    jobs = []
+    for t in range(ctx.pick(90, 900)):
+        if t % 3 == 0:
+            rows = tile([window(rng.randrange(4 ** 9), 4) for _ in range(6)], 2, 3)
+        elif t % 3 == 1:
+            rows = window(rng.randrange(4 ** 9), 4)
+        else:
+            H, W = rng.choice([(4, 7), (5, 5), (7, 4), (3, 8)])
+            rows = sprinkle_nan(rng, rand_raster(rng, H, W, "smallint"), rng.choice([0, 0.05, 0.15]))
+        j = f_job(rows, t, az=AZS[(t + 5) % 10], alt=ALTS[(t + 2) % 7])
+        j.pop("off", None)
+        j["dtype"] = ["float32", "float64"][(t // 3) % 2]
+        j["sh"] = [-24, -30, 20, -24][(t // 2) % 4]
+        if t % 5 == 4:                                        # a Dask-backed share, strip and uneven chunkings
+            H, W = len(rows), len(rows[0])
+            j["chunks"] = [[[H], [1, W - 1]], [[1, H - 1], [W]], [[H], [W]]][(t // 5) % 3]
+        jobs.append(j)
+    groups.append(("scale_family", jobs, ctx.pick(2, 4)))
 
     # ------------------------------------------------------------------ R: a Dask-backed sample of the same rasters
     # (the property is about every backend): five chunkings each, always a NON-default sun position, cell sizes via
